@@ -35,6 +35,10 @@ def _colour_box(cr):
     cr.bounded_check(run_contract_enum, "populate-wire-connections-box", c12.populate, pargs,
                      f"{len(pargs)} cases: edge sets of up to 3 edges over 3 entities x 2 signals, three colour maps, spanning tree on / off / failing: every edge is routed "
                      "exactly once under its own source, signal and planned colour; two-way pairs directly (contract evaluated on the real method, the two routers recorded)")
+    pcargs = c12.plan_connections_arg_sets()
+    cr.bounded_check(run_contract_enum, "plan-connections-box", c12.plan_connections_c, pcargs,
+                     f"{len(pcargs)} wire plans: circuit edges = graph edges minus internal feedback; colour = edge lock, else planned; earlier wires restored once each "
+                     "(contract evaluated on the real ConnectionPlanner.plan_connections, sub-steps recorded)")
     from checks.boxes import data_structure_boxes
     data_structure_boxes(cr, ("graph",))
     bargs = c12.bidi_arg_sets()
